@@ -617,7 +617,7 @@ theorem step_timer (c : Codec) (limit : Nat) (sp : SpecSt) (n : Node) (t now : I
       named := (fun f hf => h.named f (hsub.subset hf)),
       pos := h.pos, conn := h.conn, durs := h.durs, dropped := h.dropped, rel0 := h.rel0, rel1 := h.rel1, rel2 := h.rel2 }
   refine ⟨sp', ?_, hrel⟩
-  show specEnd sp [⟨.timer now deleted, n.pos⟩] = some sp'
+  show specEnd sp [⟨.timer now deleted _, n.pos⟩] = some sp'
   rw [← h.pos]
   simp only [specEnd, specStep]
   -- the clause: no deleted file holds a record a related endpoint still needs
